@@ -186,9 +186,11 @@ func transferMenu(w *world.World, o menuOpts) []world.Action {
 			for _, x := range ones {
 				lists = append(lists, []tnq{x, x, x})
 			}
-			if len(ones) >= 3 {
-				lists = append(lists, []tnq{ones[0], ones[1], ones[2]})
-			}
+		} else if len(ones) > 0 {
+			lists = append(lists, []tnq{ones[0], ones[0], ones[0]})
+		}
+		if len(ones) >= 3 {
+			lists = append(lists, []tnq{ones[0], ones[1], ones[2]}, []tnq{ones[2], ones[0], ones[1]})
 		}
 		for _, to := range dests(o) {
 			for _, l := range lists {
